@@ -594,7 +594,8 @@ fn main() {
     // hand-built raw records of about 10 MiB as first fragments ("any sequence of calls")
     let (_h4, st4) = dx::s4(&mut hsink);
     let (_h5, st5) = dx::s5(&mut hsink, false);
-    hist_trans += st1 + st2 + st4 + st5;
+    let (_h6, st6) = dx::s6(&mut hsink, false);
+    hist_trans += st1 + st2 + st4 + st5 + st6;
     let _ = (h1, h2);
     for v in hsink.viol {
         if v.what.contains("panic") || v.what.contains(">= 10 MiB") || v.what.contains("buffer holds") {
